@@ -8,7 +8,6 @@ use serde::{Deserialize, Serialize};
 use crate::client::{drive_reads, first_diff, no_proxy, ReadHist, BASE_URL};
 use crate::engine::{Ctx, Outcome, Property, Tier};
 use crate::gen::{size_line, ChunkStyle};
-use crate::refhttp::resp::build_head;
 use crate::transport::{serve_scripts, Ev, Seg};
 
 pub const METHODS: &[&str] = &["GET", "POST", "PUT", "DELETE", "OPTIONS", "PATCH", "HEAD", "PURGE"];
@@ -313,7 +312,10 @@ Content-Length; distinct by case index";
         // other coordinates)
         let version = ["HTTP/1.1", "HTTP/1.0", "HTTP/1.1", "HTTP/1.1", "HTTP/1.0"][(case.method as usize + case.status as usize * 2 + case.cl as usize * 3 + case.te as usize + case.plen as usize) % 5];
         ctx.label_if(version == "HTTP/1.0", "status-line-says-HTTP/1.0");
-        let mut wire = build_head(version, status, Some("Reason"), &headers, &mut structural);
+        // neither does the optional white space between the colon and a field value (none, one blank, three blanks)
+        let sep: &[u8] = [&b": "[..], &b":"[..], &b": "[..], &b":   "[..]][(case.method as usize * 3 + case.status as usize + case.cl as usize * 5 + case.te as usize * 7 + case.extra as usize + case.seg as usize) % 4];
+        ctx.label_if(sep == b":", "no-blank-after-the-colon");
+        let mut wire = crate::refhttp::resp::build_head_sep(version, status, Some("Reason"), &headers, &mut structural, sep);
 
         // which framing governs, and what is acceptable
         let mut accept: Vec<Expect> = vec![];
